@@ -117,6 +117,24 @@ func buildOverlay(pkgdirs []string, tmp string) (map[string][]byte, map[string]s
 	if err != nil {
 		return nil, nil, err
 	}
+	// a harness directory may name, in a file DEPS, other package directories whose harness files its own
+	// files import (e.g. the root harness uses the exports of the listeners harness): they are overlaid too
+	seen := map[string]bool{}
+	for _, pd := range pkgdirs {
+		seen[pd] = true
+	}
+	for i := 0; i < len(pkgdirs); i++ {
+		b, err := os.ReadFile(filepath.Join(harnessDirFor(pkgdirs[i]), "DEPS"))
+		if err != nil {
+			continue
+		}
+		for _, d := range strings.Fields(string(b)) {
+			if !seen[d] {
+				seen[d] = true
+				pkgdirs = append(pkgdirs, d)
+			}
+		}
+	}
 	for _, pd := range pkgdirs {
 		name := pkgNameOfDir(pd)
 		hd := harnessDirFor(pd)
